@@ -233,11 +233,18 @@ def e2e(rng, res, n):
             'A \\foreignlanguage{german}{so dass so dass so dass} so dass C',
             'x $a$ so  dass y % c\n so\tdass\n\n so\n\n dass']
     rules = [['so dass & sodass'], ['so dass & s'], ['so dass & so dass dass']]
-    for d in docs:
+    # passages in other languages, among them variants of the main language
+    # and languages without parser settings of their own: not rewritten
+    other = ('\\usepackage{babel}A so dass B\n\\begin{otherlanguage}{french}so dass voila so dass encore plus '
+             'de mots\\end{otherlanguage}\nC so dass\n\\begin{otherlanguage}{american}so dass color so dass '
+             'more words here\\end{otherlanguage}\nD \\foreignlanguage{german}{so dass eins zwei drei vier '
+             'so dass} E so dass')
+    docs = [(d, 'en') for d in docs] + [(other, 'en-GB'), (other, 'en-US'), (other, 'de-DE'), (other, 'fr')]
+    for d, mainlang in docs:
         for r in rules:
             for ml in (False, True):
-                o0 = tex2txt.Options(lang='en', pack='*')
-                o1 = tex2txt.Options(lang='en', pack='*', repl=r)
+                o0 = tex2txt.Options(lang=mainlang, pack='*')
+                o1 = tex2txt.Options(lang=mainlang, pack='*', repl=r)
                 a = tex2txt.tex2txt(d, o0, multi_language=ml)
                 b = tex2txt.tex2txt(d, o1, multi_language=ml)
                 res.count('e2e', (d, r, ml))
@@ -262,7 +269,16 @@ def e2e(rng, res, n):
                                     'length mismatch in part'))
                             # a main-language part: replace_phrases applied to the
                             # part of the run without replacements
-                            if lang in a and k < len(a[lang]) and lang == 'en':
+                            if lang in a and k < len(a[lang]) and lang != mainlang:
+                                pa = a[lang][k]
+                                if (part[0], list(part[1])) != (pa[0], list(pa[1])):
+                                    res.failures.append((
+                                        'e2e-ml-other:%r:%r:%s' % (d, r, mainlang),
+                                        {'latex': d, 'repl': r, 'multi': True, 'lang': mainlang},
+                                        'main language %s: part %d of language %s is rewritten by the '
+                                        'replacement list: %r, without the list %r'
+                                        % (mainlang, k, lang, part[0][:40], pa[0][:40])))
+                            if lang in a and k < len(a[lang]) and lang == mainlang:
                                 pa = a[lang][k]
                                 exp = utils.replace_phrases(pa[0], list(pa[1]), r)
                                 if (part[0], list(part[1])) != (exp[0], list(exp[1])):
